@@ -81,3 +81,144 @@ Example C20_calendar_nonvacuous :
   valid_date 1900 2 29 = false /\ break_utc (-1) = mkDT 1969 12 31 23 59 59 /\
   fromUtc (mkDT 2038 1 19 3 14 8) = 2147483648.
 Proof. vm_compute. repeat split; reflexivity. Qed.
+
+(* ------------------------------------------------------------------ time zones *)
+
+(* findLocalTime(utcTime), i.e. std::upper_bound as the libstdc++ binary search plus the
+   hand-written edge handling, selects the record of the LAST transition <= t; record 0
+   when there is none (no transitions, or t before the first); the last transition's
+   record from the last transition on.  For every table whose utc column is sorted, hence
+   (second part) for every well-formed table. *)
+Theorem C20_lookup_is_last_le :
+  (forall tb t, sorted_utc (trans tb) = true -> find_utc tb t = spec_type tb t) /\
+  (forall tb, wf tb = true -> sorted_utc (trans tb) = true).
+Proof. exact (conj lookup_is_last_le wf_sorted). Qed.
+Print Assumptions C20_lookup_is_last_le.
+
+(* toLocalTime / fromLocalTime on civil fields are the seconds-level functions whenever the
+   local time falls in 1900..2500 *)
+Theorem C20_local_civil : forall tb t post, sorted_utc (trans tb) = true ->
+  utc_first <= t + offset_at tb t < utc_end ->
+  toLocalTime tb t = (break_utc (t + offset_at tb t), offset_at tb t) /\
+  fromLocalTime tb (fst (toLocalTime tb t)) post = fromLocalSeconds tb (t + offset_at tb t) post.
+Proof.
+  intros tb t post Hs Hr. exact (conj (toLocalTime_spec tb t Hs) (fromLocalTime_of_toLocalTime tb t post Hs Hr)).
+Qed.
+Print Assumptions C20_local_civil.
+
+(* FULL STATEMENT (false for the code as it is, see C20_local_roundtrip_refuted):
+     for every well-formed table and every instant t, with L the local time of t,
+     fromLocalTime L post = t for the post that names t's side of a repeated hour.
+   PROVED (all well-formed tables, all instants; s = number of transitions <= t, U/O the
+   instant / offset of a transition, OB the offset in force before it, nT their number):
+   (1) t is the latest or only instant of its local time  => postTransition=true returns t
+       (no exception: also at the first and last transition);
+   (2) t is the earliest or only instant and its local time is not in the repeated window
+       of the NEXT transition => postTransition=false returns t;
+   (3) t lies in the repeated window before transition s, 1 <= s and s+1 < nT
+       => postTransition=false returns t (the earlier instant), =true the later one.
+   MISSING: case (3) when transition s is the first (s = 0) or the last (s+1 = nT) of the
+   table: the code returns the later instant for both flags (findings/C20.md). *)
+Theorem C20_local_roundtrip_partial : forall tb t, wf tb = true ->
+  let s := seg tb t in let L := t + offset_at tb t in
+  ((s = nT tb \/ L < U tb s + O tb s) -> fromLocalSeconds tb L true = t) /\
+  ((s = 0%nat \/ U tb (s - 1) + OB tb (s - 1) <= L) -> (s = nT tb \/ L < U tb s + O tb s) ->
+     fromLocalSeconds tb L false = t) /\
+  ((1 <= s)%nat -> (S s < nT tb)%nat -> U tb s + O tb s <= L ->
+     fromLocalSeconds tb L false = t /\ fromLocalSeconds tb L true = L - O tb s).
+Proof.
+  intros tb t Hw. exact (conj (local_later tb t Hw) (conj (local_only_or_first tb t Hw) (local_earlier tb t Hw))).
+Qed.
+Print Assumptions C20_local_roundtrip_partial.
+
+(* a skipped local time at transition j (any but the first of the table): the requested
+   side of the transition decides the offset.  MISSING: j = 0 (the code answers with
+   record 0 for both flags). *)
+Theorem C20_local_skipped_partial : forall tb j L post, wf tb = true -> (1 <= j < nT tb)%nat ->
+  U tb j + OB tb j <= L < U tb j + O tb j ->
+  fromLocalSeconds tb L post = L - (if post then O tb j else OB tb j).
+Proof. exact local_skipped. Qed.
+Print Assumptions C20_local_skipped_partial.
+
+Theorem C20_local_roundtrip_refuted :
+  exists tb t, wf tb = true /\ forall post, fromLocalSeconds tb (t + offset_at tb t) post <> t.
+Proof. exact local_roundtrip_refuted. Qed.
+Print Assumptions C20_local_roundtrip_refuted.
+
+Theorem C20_local_first_transition_refuted :
+  (wf tb_witness_first = true /\
+   forall post, fromLocalSeconds tb_witness_first (99000 + offset_at tb_witness_first 99000) post <> 99000) /\
+  (wf tb_witness_skip = true /\ fromLocalSeconds tb_witness_skip 104000 true <> 104000 - 7200).
+Proof. exact local_first_transition_refuted. Qed.
+Print Assumptions C20_local_first_transition_refuted.
+
+(* non-vacuity: a well-formed table with a skipped and a repeated hour in the middle *)
+Example C20_tz_nonvacuous :
+  let tb := mkTz [mkTr 1000000 1; mkTr 2000000 0; mkTr 3000000 1; mkTr 4000000 0] [3600; 7200] in
+  wf tb = true /\ seg tb 1999000 = 1%nat /\ nT tb = 4%nat /\
+  U tb 1 + O tb 1 <= 1999000 + offset_at tb 1999000 /\
+  fromLocalSeconds tb (1999000 + offset_at tb 1999000) false = 1999000 /\
+  fromLocalSeconds tb (1999000 + offset_at tb 1999000) true = 2002600 /\
+  fromLocalSeconds tb (3000000 + 3600 + 10) true = 3000000 + 10 - 3600 /\
+  fromLocalSeconds tb (3000000 + 3600 + 10) false = 3000000 + 10.
+Proof. vm_compute. repeat split; try reflexivity; discriminate. Qed.
+
+(* ------------------------------------------------------------------ text and byte order *)
+
+(* Timestamp::toString reads back (microseconds >= 0) *)
+Theorem C20_timestamp_text_roundtrip : forall us, 0 <= us < 10 ^ 26 ->
+  ts_parse (ts_toString us) = Some us.
+Proof. exact timestamp_text_roundtrip. Qed.
+Print Assumptions C20_timestamp_text_roundtrip.
+
+(* Timestamp::toFormattedString(true) has the fixed-column shape and reads back, for every
+   non-negative timestamp whose date is in 1900..2500 *)
+Theorem C20_timestamp_formatted_roundtrip : forall us,
+  utc_first * 1000000 <= us < utc_end * 1000000 -> 0 <= us ->
+  length (ts_toFormatted us true) = 24%nat /\ ts_parseFormatted (ts_toFormatted us true) = us.
+Proof. exact timestamp_formatted_len_roundtrip. Qed.
+Print Assumptions C20_timestamp_formatted_roundtrip.
+
+(* big-endian helpers: all widths, all values (shared with C10/C18) *)
+Theorem C20_byte_order : forall n x,
+  (0 <= x < 256 ^ Z.of_nat n -> be_decode (be_encode n x) = x) /\
+  ((0 < n)%nat -> signed_range n x -> be_decode_signed (be_encode n x) = x) /\
+  length (be_encode n x) = n.
+Proof.
+  intros n x. exact (conj (be_unsigned_roundtrip n x) (conj (fun H => be_signed_roundtrip n x H) (be_encode_length n x))).
+Qed.
+Print Assumptions C20_byte_order.
+
+(* inet_pton(AF_INET) (inet_ntop(AF_INET) a) = a for all 2^32 addresses; the text has no ':' *)
+Theorem C20_ipv4_roundtrip : forall a b c d,
+  pton4 (ntop4 [a; b; c; d]) = Some [a; b; c; d] /\ has_colon (ntop4 [a; b; c; d]) = false.
+Proof. intros a b c d. exact (conj (ipv4_roundtrip a b c d) (ntop4_no_colon a b c d)). Qed.
+Print Assumptions C20_ipv4_roundtrip.
+
+(* InetAddress(text, port, false) on a dotted quad: AF_INET, the same four bytes, the port in
+   network order, toIp gives the text back; any text with ':' selects AF_INET6 *)
+Theorem C20_inet_make : forall pton6,
+  (forall a b c d p, 0 <= p < 65536 ->
+     let sa := inet_make pton6 (ntop4 [a; b; c; d]) p false in
+     sa_family sa = AF_INET /\ sa_addr sa = [a; b; c; d] /\ port_load (sa_port sa) = p /\
+     forall ntop6, toIp ntop6 sa = ntop4 [a; b; c; d]) /\
+  (forall ip p flag, has_colon ip = true -> sa_family (inet_make pton6 ip p flag) = AF_INET6).
+Proof. intros pton6. exact (conj (inet_make_ipv4 pton6) (inet_make_colon pton6)). Qed.
+Print Assumptions C20_inet_make.
+
+(* toIpPort: "ip:port" / "[ip6]:port" splits back into family, ip text and port, whatever
+   inet_ntop(AF_INET6) printed (platform function, a parameter) *)
+Theorem C20_ipport_roundtrip : forall ntop6 sa p,
+  0 <= p < 65536 -> sa_port sa = port_store p ->
+  (sa_family sa = AF_INET -> exists a b c d, sa_addr sa = [a; b; c; d]) ->
+  parse_ipport (toIpPort ntop6 sa) =
+    Some (match sa_family sa with AF_INET6 => true | AF_INET => false end, toIp ntop6 sa, p).
+Proof. exact ipport_roundtrip. Qed.
+Print Assumptions C20_ipport_roundtrip.
+
+Example C20_text_nonvacuous :
+  ts_toString 1234567890123456 = [x31;x32;x33;x34;x35;x36;x37;x38;x39;x30;x2e;x31;x32;x33;x34;x35;x36] /\
+  ntop4 [xff; x00; x0a; x09] = [x32;x35;x35;x2e;x30;x2e;x31;x30;x2e;x39] /\
+  pton4 [x30;x31;x2e;x32;x2e;x33;x2e;x34] = None /\
+  port_store 8080 = [x1f; x90].
+Proof. vm_compute. repeat split; reflexivity. Qed.
